@@ -1,16 +1,57 @@
 (* RunC12.v -- runner for C12: one case = a document; result = page_iter, get_pages and the size_hint of the
-   fresh iterator and after every yielded page. *)
+   fresh iterator and after every yielded page.
+   A case may carry (edits ((id gen) obj) ...): objects that REPLACE existing objects in place (same identifiers: neither
+   the number of objects nor max_id changes).  Then the result has a further element (after <page_iter> <get_pages>) =
+   the enumeration and the numbering of the EDITED document: get_pages is a function of the document as it is at the time
+   of the call. *)
 From LV Require Import Base.Bytes Base.Sx Model.Obj Model.DocQ Model.PageTree Model.PageTreeHint.
+
+Definition pages_sx (d : doc) : list sx :=
+  [SL (map oid_to_sx (page_iter d));
+   SL (map (fun p => SL [sx_N (fst p); oid_to_sx (snd p)]) (get_pages d))].
+
+(* the first (edits ...) element of the case, if any *)
+Fixpoint find_edits (l : list sx) : option (list sx) :=
+  match l with
+  | [] => None
+  | SL (t :: es) :: l' => if is_id t "edits" then Some es else find_edits l'
+  | _ :: l' => find_edits l'
+  end.
+
+(* in-place replacement: the identifier must exist *)
+Definition apply_edits (d : doc) (es : list sx) : option doc :=
+  fold_left (fun acc x =>
+    match acc, x with
+    | Some d, SL [id; o] =>
+      match oid_of_sx id, obj_of_sx o with
+      | Some id, Some o =>
+        match lookup (d_objects d) id with
+        | Some _ => Some {| d_version := d_version d; d_binary_mark := d_binary_mark d; d_trailer := d_trailer d;
+                            d_objects := insert (d_objects d) id o; d_max_id := d_max_id d |}
+        | None => None
+        end
+      | _, _ => None
+      end
+    | _, _ => None
+    end) es (Some d).
 
 Definition run (x : sx) : sx :=
   match (match x with SL (_ :: dx :: _) => doc_of_sx dx | _ => None end) with
   | None => sx_id "badcase"
   | Some d =>
-    SL [sx_id "pages"; SL (map oid_to_sx (page_iter d));
-        SL (map (fun p => SL [sx_N (fst p); oid_to_sx (snd p)]) (get_pages d));
-        (let '(h0, steps) := page_hints d in
+    let base :=
+      sx_id "pages" :: pages_sx d ++
+        [let '(h0, steps) := page_hints d in
          SL (sx_id "hints" :: SL [sx_N (fst h0); sx_N (snd h0)] ::
-             map (fun s => SL [oid_to_sx (fst s); sx_N (fst (snd s)); sx_N (snd (snd s))]) steps))]
+             map (fun s => SL [oid_to_sx (fst s); sx_N (fst (snd s)); sx_N (snd (snd s))]) steps)] in
+    match (match x with SL (_ :: _ :: rest) => find_edits rest | _ => None end) with
+    | None => SL base
+    | Some es =>
+      match apply_edits d es with
+      | None => sx_id "badcase"
+      | Some d' => SL (base ++ [SL (sx_id "after" :: pages_sx d')])
+      end
+    end
   end.
 
 Definition run_line : bytes -> bytes := run_line_with run.
